@@ -38,6 +38,13 @@ def cases(tier, seed):
             out.append({"name": "zip.concurrent/%s/%s" % (form, "-".join(assign)), "kind": "conc", "form": form, "assign": list(assign), "cap": cap})
             out.append({"name": "zip.nested/%s/%s" % (form, "-".join(assign)), "kind": "nested", "form": form, "assign": list(assign),
                         "budget": 300 if tier == "quick" else None})
+        # inputs that are library futures sharing a dependency: two f_map views of one future + a plain future
+        vops = ["cancel_v1", "cancel_d", "complete_d", "fail_d", "fail_x", "complete_x", "cancel_out"]
+        for a in vops:
+            for b in vops:
+                if a != b:
+                    out.append({"name": "zip.views/%s/%s|%s" % (form, a, b), "kind": "views", "form": form, "a": a, "b": b,
+                                "cap": 24 if tier == "quick" else None})
     return out
 
 
@@ -312,9 +319,93 @@ class ConcScenario(object):
             res.key("conc", self.case["form"], "".join(assign), info.get("site"), info.get("site2"))
 
 
+class ViewScenario(object):
+    """out = f_zip / f_sequence / f_traverse over (f_map(d), f_map(d), x): two threads act on the inputs / the
+    output; every call returns, the output is decided by the model of whatever order the inputs ended in."""
+
+    def __init__(self, case):
+        self.case = case
+
+    def setup(self):
+        F = instr.ME.futures
+        ctx = Ctx()
+        ctx.d = SpyFuture("d")
+        ctx.x = SpyFuture("x")
+        ctx.v1 = F.f_map(ctx.d, lambda v: ("v1", v))
+        ctx.v2 = F.f_map(ctx.d, lambda v: ("v2", v))
+        ctx.out = mk(self.case["form"], [ctx.v1, ctx.v2, ctx.x])
+        ctx.e_d = UserErrorA("d")
+        ctx.e_x = UserErrorB("x")
+        return ctx
+
+    def act(self, ctx, what):
+        try:
+            if what == "cancel_v1":
+                ctx.v1.cancel()
+            elif what == "cancel_d":
+                ctx.d.cancel()
+            elif what == "cancel_out":
+                ctx.out.cancel()
+            elif what == "complete_d":
+                ctx.d.set_result("D")
+            elif what == "fail_d":
+                ctx.d.set_exception(ctx.e_d)
+            elif what == "complete_x":
+                ctx.x.set_result("X")
+            elif what == "fail_x":
+                ctx.x.set_exception(ctx.e_x)
+        except cf.InvalidStateError:
+            pass
+
+    def victim_role(self, ctx):
+        return "V"
+
+    def start_victim(self, ctx):
+        return ctx.actor("V", self.act, ctx, self.case["a"]).go()
+
+    def intervene(self, ctx):
+        self.act(ctx, self.case["b"])
+
+    def finish(self, ctx):
+        for f, v in ((ctx.d, "D"), (ctx.x, "X")):
+            if not f.done():
+                try:
+                    f.set_result(v)
+                except cf.InvalidStateError:
+                    pass
+
+    def oracle(self, ctx, res, info):
+        label = "%s placement=%s" % (self.case["name"], info.get("site"))
+        for a in (info.get("victim"), info.get("iact")):
+            if a is not None and a.error is not None and not isinstance(a.error, instr.DeadlockBroken):
+                res.violation("unexpected-exception/%s" % type(a.error).__name__, "%s: %r" % (label, a.error), tb=getattr(a, "tb", None))
+        ins = [outcome(f) for f in (ctx.v1, ctx.v2, ctx.x)]
+        o = outcome(ctx.out)
+        if o[0] == "pending":
+            res.violation("output-pending/views", "%s: every input is finished (%s) but the output is pending" % (label, [outcome_repr(i) for i in ins]))
+        elif all(i[0] == "value" for i in ins):
+            want = [("v1", "D"), ("v2", "D"), "X"]
+            if o[0] == "value" and list(o[1]) != want:
+                res.violation("wrong-order/views", "%s: output %s, inputs in argument order are %r" % (label, outcome_repr(o), want))
+            elif o[0] == "exc":
+                res.violation("wrong-outcome/views", "%s: all inputs succeeded, output is %s" % (label, outcome_repr(o)))
+        elif o[0] == "value":
+            res.violation("wrong-outcome/views", "%s: output has a value although inputs ended %s" % (label, [outcome_repr(i) for i in ins]))
+        elif o[0] == "exc" and not any(i[0] == "exc" and i[1] is o[1] for i in ins):
+            res.violation("wrong-outcome/views", "%s: output failed with %r which is no input's exception (%s)" % (label, o[1], [outcome_repr(i) for i in ins]))
+        if info.get("hit"):
+            res.key("views", self.case["form"], self.case["a"], self.case["b"], info.get("site"))
+        res.count("view_outputs_judged")
+        res.sample({"form": self.case["form"], "thread_A": self.case["a"], "thread_B": self.case["b"], "placement": info.get("site"),
+                    "output": outcome_repr(o), "inputs": [outcome_repr(i) for i in ins]}, limit=1)
+
+
 def run_case(case, res):
     k = case["kind"]
     rng = random.Random("c15/%s/%s" % (case["seed"], case["name"]))
+    if k == "views":
+        Sweep(ViewScenario(case), res, "rt", case["name"]).run(case["cap"], rng, per_site=2)
+        return
     if k == "order":
         run_order(case, res)
     elif k == "counts":
